@@ -8,7 +8,7 @@
    the object it rebuilds from one, tied to Rule.to_json / Rule.from_json by the rule_codec stream): reading what was
    written gives back the same rule, and two rules stored as the same structure are the same rule. *)
 From Coq Require Import ZArith NArith List Bool.
-From Vakt Require Import Base.PyMonad Base.PyVal Model.Rules Model.Policy Model.RuleJson Proofs.PyValP Proofs.PolicyP Proofs.RuleJsonP.
+From Vakt Require Import Base.PyMonad Base.PyVal Model.Rules Model.Policy Model.RuleJson Proofs.PyValP Proofs.PolicyP Proofs.RuleJsonP Proofs.PolicyJsonP.
 Import ListNotations.
 
 (* a document without a uid is refused *)
@@ -82,3 +82,26 @@ Proof. cbv zeta. split; [reflexivity|]. split; [reflexivity|]. split.
   - eexists. split; [vm_compute; reflexivity|]. split; vm_compute; reflexivity.
   - vm_compute. discriminate.
 Qed.
+
+(* ---- a whole policy written with to_json and read with Policy.from_json ---- *)
+(* Policy._data (data_of) turns every tuple-valued attribute into a list; from_json of what a constructed policy
+   writes rebuilds exactly the written attributes: same keys in the same order, same values, same computed type *)
+Theorem C09_policy_written_then_read : forall a s, ctor a = Ok s -> from_props (data_of s) = Ok (data_of s).
+Proof. exact written_then_read. Qed.
+Print Assumptions C09_policy_written_then_read.
+
+(* writing twice writes the same; writing does not change the type the elements imply *)
+Theorem C09_written_idempotent : forall s, data_of (data_of s) = data_of s.
+Proof. exact data_of_idem. Qed.
+Print Assumptions C09_written_idempotent.
+Theorem C09_written_keeps_type : forall s, implied_type (data_of s) = implied_type s.
+Proof. exact implied_data_of. Qed.
+Print Assumptions C09_written_keeps_type.
+
+Example C09_policy_json_nonvacuous :
+  let a := {| c_uid := AV (VInt 7); c_subjects := ASeq true [XRule RAny; XDict [([107%N], REq (VInt 1))]];
+              c_effect := AV (VStr s_allow); c_resources := ASeq true []; c_actions := ASeq false [XRule RTruthy];
+              c_context := AV VNone; c_rules := ACtx [([99%N], RAny)]; c_description := AV VNone |} in
+  exists s, ctor a = Ok s /\ data_of s <> s /\ from_props (data_of s) = Ok (data_of s) /\
+            lookup n_type (data_of s) = Some (AV (VInt 2)).
+Proof. cbv zeta. eexists. split; [vm_compute; reflexivity|]. split; [discriminate|]. split; reflexivity. Qed.
